@@ -31,6 +31,7 @@ def units(tier):
     t = 1200 if tier == "thorough" else 400
     return [
         SL("slice.terminate_broken", "x6_terminate_broken", 44),
+        SL("slice.terminate_broken_vs_submit", "x6_terminate_broken", 70, params={"with_user": True}),
         H("C02", M, "check_wait_table", t, [PE + "wait_result_broken_or_wakeup", "loky.backend.utils:get_exitcodes_terminated_worker", "loky.backend.utils:_format_exitcodes"],
           "1..2 workers, readiness subset symbolic, item kind in {result, pid, remote traceback, garbled}, exit code -15..3"),
         H("C02", M, "check_exitcode_names", t, ["loky.backend.utils:_format_exitcodes", "loky.backend.utils:_get_exitcode_name"], "exit codes -64..255"),
